@@ -15,6 +15,7 @@ raises ValueError and the *next* command still returns exactly its own output;
 the awaited form returns the same values.
 """
 import asyncio
+import os
 import sys
 import time
 
@@ -77,7 +78,10 @@ def cases(draw):
     if repl == 'bash' and mode == 'sync' and draw(st.integers(0, 2)) == 0:
         # a command line longer than a terminal in canonical mode would accept (4095 bytes)
         cmds.insert(draw(st.integers(0, len(cmds))), ['long-line', draw(st.sampled_from([4200, 6000]))])
-    return {'repl': repl, 'mode': mode, 'cmds': cmds}
+    # the environment the REPL's shell inherits: many distributions' profile files (and users) set a
+    # PROMPT_COMMAND that prints something (a terminal title) before every prompt
+    penv = draw(st.sampled_from([None, None, 'PROMPT_COMMAND'])) if repl == 'bash' else None
+    return {'repl': repl, 'mode': mode, 'cmds': cmds, 'penv': penv}
 
 
 def render(repl, c):
@@ -157,7 +161,16 @@ def check_case(case, col=None):
     repl_name = case['repl']
     with guard('starting the %s REPL' % repl_name, allow=()):
         if repl_name == 'bash':
-            repl = replwrap.bash()
+            saved_pc = os.environ.get('PROMPT_COMMAND')
+            if case.get('penv'):
+                os.environ['PROMPT_COMMAND'] = 'printf "<title:%s>" "$PWD"'
+            try:
+                repl = replwrap.bash()
+            finally:
+                if saved_pc is None:
+                    os.environ.pop('PROMPT_COMMAND', None)
+                else:
+                    os.environ['PROMPT_COMMAND'] = saved_pc
         else:
             repl = replwrap.python(sys.executable)
             repl.run_command('import sys')
@@ -225,6 +238,8 @@ def check_case(case, col=None):
         for f in feats:
             col.label(f)
         col.label('repl=%s/%s' % (repl_name, case['mode']))
+        if case.get('penv'):
+            col.label('inherited-PROMPT_COMMAND')
         col.count('commands', len(case['cmds']))
         col.case(case, nt)
 
